@@ -606,7 +606,7 @@ struct Gen {
 			if (r < 70) { static const std::vector<std::string> ms = { "sort", "reverse", "unique", "shallow_clone" }; return Method(Expr(TArrN, d - 1), pick(ms)); }
 			if (r < 78) return Sys(rng.coin() ? "union" : "intersection", { Expr(TArrN, d - 1), Expr(TArrN, d - 1) });
 			if (r < 84) return Method(Expr(TDict, d - 1), "values");
-			if (r < 90) return N2("op", Expr(TArrN, d - 1), N0("null"), "+");
+			if (r < 90) return N2("op", Expr(TArrN, d - 1), N0("null"), rng.coin() ? "+" : "-");
 			return Leaf(TArrN);
 		case TArrS:
 			r = rng.below(100);
@@ -673,7 +673,7 @@ struct Gen {
 					r = rng.below(4);
 					if (r == 0) out.push_back(Method(N0("v", v.first), "add", { Expr(TNum, 2) }));
 					else if (r == 1) out.push_back(N2("set", N2("idx", N0("v", v.first), Num(std::to_string(rng.below(4)))), Expr(TNum, 2), rng.coin() ? "=" : "+="));
-					else if (r == 2) out.push_back(N2("set", N0("v", v.first), Expr(TArrN, 2), rng.coin() ? "+=" : "-="));
+					else if (r == 2) out.push_back(N2("set", N0("v", v.first), pm(150) ? N0("null") : Expr(TArrN, 2), rng.coin() ? "+=" : "-="));
 					else out.push_back(Method(N0("v", v.first), pm(700) ? "remove" : "clear", pm(700) ? std::vector<Node>{ Num("0") } : std::vector<Node>{}));
 					if (out.back().tag == "call" && out.back().k[0].s == "clear") out.back().k.resize(1);
 					if (out.back().tag == "call" && out.back().k[0].s == "remove" && out.back().k.size() == 1) out.back().k.push_back(Num("0"));
